@@ -1,0 +1,62 @@
+//go:build verif
+
+// Contracts for contract-based verification (/verif). Comment-only: with or without the
+// build tag "verif" this file adds nothing to the compiled package.
+
+package supervisor
+
+// ---------------------------------------------------------------------------------------------
+// C19: the local supervisor
+// ---------------------------------------------------------------------------------------------
+//@ event ProcStart = ret os/exec.(*Cmd).Start
+//@ event ProcStartFailed = ret os/exec.(*Cmd).Start when r0 != nil
+//@ event ProcWaited = ret os/exec.(*Cmd).Wait
+//@ event WaiterSpawned = call supervisor.(*LocalSupervisor).Exec$1
+//@ event ExitEventSent = send supervisor.LocalSupervisor.events
+//@ event SignalSent = call syscall.Kill
+//@ event KillSignalSent = call syscall.Kill when a1 == syscall.SIGKILL
+//@ event TermSignalSent = call syscall.Kill when a1 == syscall.SIGTERM
+//@ event GroupLookup = ret syscall.Getpgid
+//@ event GroupFound = ret syscall.Getpgid when r1 == nil
+//@ event TerminationSeen = recv supervisor.process.termination
+//@ event KillDeadlineHit = recv call:context.(Context).Done
+//@ event DeadlineAlreadyPast = ret time.Since when r0 > 0
+//@ event DeadlineNotPast = ret time.Since when r0 <= 0
+//@ event KillInner = call supervisor.kill
+
+//@ typeinv LocalSupervisor s
+//@   inv s.processMap != nil
+
+// Exec: a process of the runtime domain is started once, recorded under its name, and gets exactly one waiter goroutine
+//@ func (*LocalSupervisor).Exec
+//@   requires s != nil && req != nil
+//@   ensures [other-domains-are-a-no-op] req.Domain != "runtime" ==> r0 == nil && delta(ProcStart) == 0 && delta(WaiterSpawned) == 0
+//@   ensures [start-failure-is-reported] delta(ProcStartFailed) == 1 ==> r0 != nil && delta(WaiterSpawned) == 0
+//@   ensures [one-waiter-per-started-process] req.Domain == "runtime" ==> delta(ProcStart) == 1 && delta(WaiterSpawned) == 1 - delta(ProcStartFailed) && (delta(WaiterSpawned) == 1 ==> r0 == nil && has(s.processMap, req.Name) && first(ProcStart) < first(WaiterSpawned))
+
+// the waiter: waits for the process, then emits exactly one termination event with either an exit status or a signal
+//@ func (*LocalSupervisor).Exec$1
+//@   ensures [exactly-one-event-after-the-wait] delta(ProcWaited) == 1 && delta(ExitEventSent) == 1 && first(ProcWaited) < first(ExitEventSent)
+//@   ensures [status-or-signal-not-both] (lastarg(ExitEventSent, 0).Event.Signo == nil) != (lastarg(ExitEventSent, 0).Event.ExitStatus == nil)
+//@   ensures [clean-exit-is-status-zero] lastret(ProcWaited) == nil ==> lastarg(ExitEventSent, 0).Event.ExitStatus != nil && deref(lastarg(ExitEventSent, 0).Event.ExitStatus) == 0
+
+// kill: success only once the termination channel was seen closed; SIGKILL to the whole group; errors for a past deadline or an outlived one
+//@ func kill
+//@   ensures [success-only-after-termination] r0 == nil ==> delta(TerminationSeen) == 1
+//@   ensures [already-terminated-needs-no-signal] delta(TerminationSeen) == 1 && delta(DeadlineAlreadyPast) + delta(DeadlineNotPast) == 0 ==> r0 == nil && delta(SignalSent) == 0
+//@   ensures [past-deadline-is-an-error-without-signal] delta(DeadlineAlreadyPast) == 1 ==> r0 != nil && delta(SignalSent) == 0
+//@   ensures [whole-group-sigkill] delta(SignalSent) <= 1 && delta(KillSignalSent) == delta(SignalSent) && (delta(SignalSent) == 1 ==> delta(GroupLookup) == 1 && (delta(GroupFound) == 1 && lastret(GroupLookup) >= 0 ==> lastarg(SignalSent, 0) == 0 - lastret(GroupLookup)) && (delta(GroupFound) == 0 ==> lastarg(SignalSent, 0) == p.pid))
+//@   ensures [outliving-the-deadline-is-an-error] delta(KillDeadlineHit) == 1 ==> r0 != nil
+
+//@ func (*LocalSupervisor).Kill
+//@   requires s != nil && req != nil
+//@   ensures [other-domains-are-a-no-op] req.Domain != "runtime" ==> r0 == nil && delta(KillInner) == 0 && delta(SignalSent) == 0
+//@   ensures [unknown-name-is-an-error] req.Domain == "runtime" && !old(has(s.processMap, req.Name)) ==> r0 != nil && typeis(r0, *model.SupervisorError) && r0.(*model.SupervisorError).Kind == model.NoSuchEntity && delta(KillInner) == 0 && delta(SignalSent) == 0
+//@   ensures [known-name-is-killed] req.Domain == "runtime" && old(has(s.processMap, req.Name)) ==> delta(KillInner) == 1 && lastarg(KillInner, 1) == req.Name
+
+// Terminate: SIGTERM to the group, best effort, never waits
+//@ func (*LocalSupervisor).Terminate
+//@   requires s != nil && req != nil
+//@   ensures [other-domains-are-a-no-op] req.Domain != "runtime" ==> r0 == nil && delta(SignalSent) == 0
+//@   ensures [unknown-name-is-an-error] req.Domain == "runtime" && !old(has(s.processMap, req.Name)) ==> r0 != nil && delta(SignalSent) == 0
+//@   ensures [sigterm-to-the-group-without-waiting] req.Domain == "runtime" && old(has(s.processMap, req.Name)) ==> r0 == nil && delta(SignalSent) == 1 && delta(TermSignalSent) == 1 && delta(GroupLookup) == 1 && (delta(GroupFound) == 1 && lastret(GroupLookup) >= 0 ==> lastarg(SignalSent, 0) == 0 - lastret(GroupLookup)) && delta(TerminationSeen) == 0 && delta(KillDeadlineHit) == 0
